@@ -247,9 +247,24 @@ def single_block_stream(res, rng, n):
                 lo = r.randint(0, aw - 1)
                 hi = r.randint(lo, aw - 1)
                 rw = r.randint(1, 24)
-                kind = r.choice(['Range', 'Range', 'Bit', 'ZeroExtend', 'SignExtend', 'Buf', 'Not', 'ShiftLeftConstant', 'ShiftRightConstant'])
-                case.inw, case.outw, case.real = [aw], [rw], kind
-                case.desc = dict(block=kind, aw=aw, rw=rw, high=hi, low=lo)
+                kind = r.choice(['Range', 'Range', 'Bit', 'ZeroExtend', 'SignExtend', 'Buf', 'Not', 'ShiftLeftConstant', 'ShiftRightConstant', 'Mul', 'Mul', 'Mux2w'])
+                if kind == 'Mul':
+                    # results just below / at / above the full product width
+                    aw, bw = r.randint(2, 8), r.randint(2, 8)
+                    rw = aw + bw + r.choice([-2, -1, -1, 0, 1])
+                    case.inw, case.outw, case.real = [aw, bw], [rw], 'Mul'
+                    case.desc = dict(block='Mul', aw=aw, bw=bw, rw=rw)
+                    case.build = lambda hw_, i_, o_: py4hw.Mul(hw_, 'dut', i_[0], i_[1], o_[0])
+                elif kind == 'Mux2w':
+                    # data inputs of different widths, one of them wider than the result
+                    sw, w0, w1 = r.randint(1, 2), r.randint(1, 12), r.randint(1, 12)
+                    rw = r.randint(1, 12)
+                    case.inw, case.outw, case.real = [sw, w0, w1], [rw], 'Mux2'
+                    case.desc = dict(block='Mux2', sel=sw, sel0=w0, sel1=w1, rw=rw)
+                    case.build = lambda hw_, i_, o_: py4hw.Mux2(hw_, 'dut', i_[0], i_[1], i_[2], o_[0])
+                if kind not in ('Mul', 'Mux2w'):
+                    case.inw, case.outw, case.real = [aw], [rw], kind
+                    case.desc = dict(block=kind, aw=aw, rw=rw, high=hi, low=lo)
                 def build(hw_, i_, o_, _k=kind, _hi=hi, _lo=lo):
                     if _k == 'Range':
                         py4hw.Range(hw_, 'dut', i_[0], _hi, _lo, o_[0])
@@ -259,7 +274,8 @@ def single_block_stream(res, rng, n):
                         getattr(py4hw, _k)(hw_, 'dut', i_[0], _lo, o_[0])
                     else:
                         getattr(py4hw, _k)(hw_, 'dut', i_[0], o_[0])
-                case.build = build
+                if kind not in ('Mul', 'Mux2w'):
+                    case.build = build
         except Exception as e:
             res.hist('build_errors', 'case:' + str(e)[:40])
             continue
